@@ -3,6 +3,7 @@ package main
 import (
 	"fmt"
 	"go/ast"
+	"go/constant"
 	"go/token"
 	"go/types"
 	"sort"
@@ -786,4 +787,456 @@ func c02IsErrVar(r *Run, d string) bool {
 	}
 	c02ErrVarMemo[d] = ok
 	return ok
+}
+
+// ---- walks under implications between atoms -------------------------------------------
+
+// Implication: whenever atom If has value IfVal, atom Then has value ThenVal — both atoms test
+// the CURRENT instance of one SSA value (e.g. IsFatal(err) = T ⇒ err ≠ nil).  Def is the block
+// of the instruction that defines the tested value: entering it starts a new instance, so what
+// was learnt about the previous one is dropped (nil: the value never changes).
+// Only atoms with a two-valued domain (T/F, nil/non) are supported.
+type Implication struct {
+	If, IfVal, Then, ThenVal string
+	Def                      *ssa.BasicBlock
+}
+
+func wOtherVal(v string) string {
+	switch v {
+	case "T":
+		return "F"
+	case "F":
+		return "T"
+	case "nil":
+		return "non"
+	case "non":
+		return "nil"
+	}
+	return ""
+}
+
+// wClose merges σ with the facts learnt on the way and closes the result under the implications
+// (forwards and by contraposition); ok=false when the combination is contradictory (the path
+// that learnt the facts cannot be taken by any execution).
+func wClose(s, facts Sigma, impls []Implication) (Sigma, bool) {
+	m := Sigma{}
+	for k, v := range s {
+		m[k] = v
+	}
+	for k, v := range facts {
+		if old, has := m[k]; has && old != v {
+			return nil, false
+		}
+		m[k] = v
+	}
+	for changed := true; changed; {
+		changed = false
+		for _, im := range impls {
+			if m[im.If] == im.IfVal {
+				if v, has := m[im.Then]; has && v != im.ThenVal {
+					return nil, false
+				} else if !has {
+					m[im.Then] = im.ThenVal
+					changed = true
+				}
+			}
+			if v, has := m[im.Then]; has && v != im.ThenVal {
+				if _, hasIf := m[im.If]; !hasIf {
+					m[im.If] = wOtherVal(im.IfVal)
+					changed = true
+				}
+			}
+		}
+	}
+	return m, true
+}
+
+// WalkImplied is Describer.Walk made path-sensitive for the atoms named by the implications:
+// the value an implication atom took at a branch is remembered along the path (until the tested
+// SSA value is defined anew) and combined with σ and the implications; a branch edge whose
+// condition contradicts what is known is not taken.  Every real execution consistent with σ
+// only takes edges of the result, provided the implications hold of the program (the caller
+// establishes them as obligations of their own).
+func (r *Run) WalkImplied(fn *ssa.Function, s Sigma, from *ssa.BasicBlock, stop map[*ssa.BasicBlock]bool, impls []Implication) *Reach {
+	if from == nil {
+		from = fn.Blocks[0]
+	}
+	tracked := map[string]bool{}
+	for _, im := range impls {
+		tracked[im.If], tracked[im.Then] = true, true
+	}
+	type st struct {
+		b     *ssa.BasicBlock
+		pred  int
+		facts string
+	}
+	enc := func(f Sigma) string { return f.String() }
+	factsOf := map[string]Sigma{"{}": {}}
+	seen := map[st]bool{}
+	out := &Reach{Blocks: map[*ssa.BasicBlock]bool{}, Edges: map[[2]int]bool{}}
+	work := []st{{from, -1, "{}"}}
+	for len(work) > 0 {
+		c := work[len(work)-1]
+		work = work[:len(work)-1]
+		if seen[c] || stop[c.b] && c.b != from {
+			continue
+		}
+		seen[c] = true
+		out.Blocks[c.b] = true
+		facts := Sigma{}
+		for k, v := range factsOf[c.facts] {
+			facts[k] = v
+		}
+		for _, im := range impls { // a new instance of the tested value
+			if im.Def == c.b {
+				delete(facts, im.If)
+				delete(facts, im.Then)
+			}
+		}
+		m, ok := wClose(s, facts, impls)
+		if !ok {
+			continue
+		}
+		type edge struct {
+			sb    *ssa.BasicBlock
+			learn [2]string
+		}
+		var edges []edge
+		if n := len(c.b.Instrs); n > 0 {
+			if ifi, isIf := c.b.Instrs[n-1].(*ssa.If); isIf {
+				ci := r.D.Classify(ifi.Cond)
+				var lt, lf [2]string
+				if tracked[ci.Key] && len(ci.True) == 1 {
+					for v := range ci.True {
+						lt, lf = [2]string{ci.Key, v}, [2]string{ci.Key, wOtherVal(v)}
+					}
+				}
+				switch r.D.Eval(ifi.Cond, m, c.b, c.pred) {
+				case T:
+					edges = []edge{{c.b.Succs[0], lt}}
+				case F:
+					edges = []edge{{c.b.Succs[1], lf}}
+				default:
+					edges = []edge{{c.b.Succs[0], lt}, {c.b.Succs[1], lf}}
+				}
+			} else {
+				for _, sb := range c.b.Succs {
+					edges = append(edges, edge{sb: sb})
+				}
+			}
+		}
+		for _, e := range edges {
+			nf := Sigma{}
+			for k, v := range facts {
+				nf[k] = v
+			}
+			if e.learn[0] != "" && e.learn[1] != "" {
+				if _, fixed := s[e.learn[0]]; !fixed {
+					nf[e.learn[0]] = e.learn[1]
+				}
+			}
+			if _, ok := wClose(s, nf, impls); !ok {
+				continue // the edge contradicts what is known about the tested value
+			}
+			pi := -1
+			for i, p := range e.sb.Preds {
+				if p == c.b {
+					pi = i
+					break
+				}
+			}
+			if !(stop[e.sb] && e.sb != from) {
+				out.Edges[[2]int{c.b.Index, e.sb.Index}] = true
+			}
+			k := enc(nf)
+			factsOf[k] = nf
+			work = append(work, st{e.sb, pi, k})
+		}
+	}
+	return out
+}
+
+// FailEdgeWalk is FailEdge with the walk supplied by the caller (e.g. WalkImplied): once the
+// condition came out bad (walk from each block testing it), every return that may still execute
+// satisfies Want and no Unreach instruction executes.
+func (r *Run) FailEdgeWalk(fn *ssa.Function, key string, sp EdgeSpec, walk func(s Sigma, from *ssa.BasicBlock) *Reach) {
+	found := r.D.AtomsOf(fn)
+	bound := r.bindAtom(fn, sp.Atom)
+	key = key + ":" + sp.Name
+	if len(bound) == 0 {
+		r.Fail(key, r.FnPos(fn), fmt.Sprintf("undecided: no branch condition of %s tests %s%s~%s (the check for this cause is missing)", FuncName(fn), sp.Atom.Pat, sp.Atom.OrdA, sp.Atom.OrdB))
+		return
+	}
+	isBound := wKeySet(bound)
+	flipped := map[string]bool{}
+	if sp.Atom.OrdA != "" {
+		for _, k := range bound {
+			if ci := found[k]; !(glob(sp.Atom.OrdA, ci.A) && glob(sp.Atom.OrdB, ci.B)) {
+				flipped[k] = true
+			}
+		}
+	}
+	blocks := r.blocksTesting(fn, func(ci *CondInfo) bool { return isBound[ci.Key] })
+	if len(blocks) == 0 {
+		r.Fail(key, r.FnPos(fn), "undecided: atom bound but no block tests it directly")
+		return
+	}
+	ok, detail, nret := true, "", 0
+	for _, bad := range strings.Split(sp.Bad, ",") {
+		s := Sigma{}
+		skip := true
+		for _, k := range bound {
+			v := bad
+			if flipped[k] {
+				v = sgFlipRel(bad)
+			}
+			if !r.D.infeasible(found, k, v) {
+				skip = false
+			}
+			s[k] = v
+		}
+		if skip {
+			continue
+		}
+		for _, b := range blocks {
+			reach := walk(s, b)
+			r.Valuations++
+			for _, ret := range reachableReturns(fn, reach) {
+				nret++
+				if good, why := sp.Want(r, ret); !good {
+					ok, detail = false, fmt.Sprintf("after %s [%s] the return at %s is reachable: %s", sp.Name, s, r.Where(ret), why)
+				}
+			}
+			for _, m := range sp.Unreach {
+				if m.Block() == b {
+					continue // executes before the test itself
+				}
+				if reach.Has(m) {
+					ok, detail = false, fmt.Sprintf("after %s [%s] the instruction at %s may still execute", sp.Name, s, r.Where(m))
+				}
+			}
+		}
+	}
+	if ok && nret == 0 {
+		ok, detail = false, "no return reachable after the failure (undecided)"
+	}
+	if ok {
+		detail = fmt.Sprintf("%s ⇒ all %d reachable returns conform; atom %v", sp.Name, nret, bound)
+	}
+	r.Check(key, ok, r.Where(blocks[0].Instrs[len(blocks[0].Instrs)-1]), detail)
+}
+
+// ExpectStoresUnder is ExpectStores with the stored values rendered as they are on the edges of
+// a walk (φ-nodes merge only the edges an execution can take).
+func (r *Run) ExpectStoresUnder(fn *ssa.Function, key, addrGlob, valGlob string, min int, reach *Reach) {
+	sts := r.StoresTo(fn, addrGlob)
+	if len(sts) < min {
+		r.Fail(key, r.FnPos(fn), fmt.Sprintf("expected >= %d stores to %s in %s, found %d", min, addrGlob, FuncName(fn), len(sts)))
+		return
+	}
+	for _, st := range sts {
+		got := r.D.D(st.Val)
+		if reach != nil && !anyGlob(valGlob, got) {
+			got = r.D.DUnder(st.Val, reach)
+		}
+		r.Check(key, anyGlob(valGlob, got), r.Where(st), fmt.Sprintf("%s <- %s (expected %s)", r.D.D(st.Addr), got, valGlob))
+	}
+}
+
+// ---- slices under construction ----------------------------------------------------------
+
+// sliceFill is one place where an element is put into a slice that a function builds.
+type sliceFill struct {
+	In    ssa.Instruction // the append call, or the store through &s[i]
+	Elem  ssa.Value       // the element
+	Index ssa.Value       // s[Index] = Elem; nil for an append
+}
+
+// sliceFills finds how the slice value v is filled: v (through φ-nodes and reslicing) is
+//
+//	make([]T, n) whose elements are assigned by index,  s[i] = e, and/or
+//	a chain  append(append(make([]T, 0, n) | nil, e1) …, ek)  of single-element appends.
+//
+// makes are the underlying make([]T, …) instructions; ok=false when v is built any other way.
+func sliceFills(v ssa.Value) (fills []sliceFill, makes []*ssa.MakeSlice, ok bool) {
+	ok = true
+	seen := map[ssa.Value]bool{}
+	var visit func(v ssa.Value)
+	visit = func(v ssa.Value) {
+		if seen[v] {
+			return
+		}
+		seen[v] = true
+		switch x := v.(type) {
+		case *ssa.Phi:
+			for _, e := range x.Edges {
+				visit(e)
+			}
+		case *ssa.Slice:
+			visit(x.X)
+		case *ssa.MakeSlice:
+			makes = append(makes, x)
+			for _, ref := range *x.Referrers() {
+				ia, isIA := ref.(*ssa.IndexAddr)
+				if !isIA || ia.X != ssa.Value(x) {
+					continue
+				}
+				for _, ref2 := range *ia.Referrers() {
+					if st, isSt := ref2.(*ssa.Store); isSt && st.Addr == ssa.Value(ia) {
+						fills = append(fills, sliceFill{In: st, Elem: st.Val, Index: ia.Index})
+					}
+				}
+			}
+		case *ssa.Call:
+			b, isB := x.Call.Value.(*ssa.Builtin)
+			if !isB || b.Name() != "append" || len(x.Call.Args) != 2 {
+				ok = false
+				return
+			}
+			arr := baseAlloc(wSliceBase(x.Call.Args[1]))
+			var el ssa.Value
+			n := 0
+			if arr != nil {
+				if at, isArr := arr.Type().Underlying().(*types.Pointer).Elem().Underlying().(*types.Array); isArr && at.Len() == 1 {
+					for _, ref := range *arr.Referrers() {
+						if ia, isIA := ref.(*ssa.IndexAddr); isIA {
+							for _, ref2 := range *ia.Referrers() {
+								if st, isSt := ref2.(*ssa.Store); isSt && st.Addr == ssa.Value(ia) {
+									el = st.Val
+									n++
+								}
+							}
+						}
+					}
+				}
+			}
+			if n != 1 {
+				ok = false
+				return
+			}
+			fills = append(fills, sliceFill{In: x, Elem: el})
+			visit(x.Call.Args[0])
+		default:
+			if !isNilConst(v) {
+				ok = false
+			}
+		}
+	}
+	visit(v)
+	return
+}
+
+// nonNegCounter: v is a loop counter that is never negative — the index of a range loop, or an
+// induction variable entered with a constant ≥ 0 and advanced by a positive constant.
+func nonNegCounter(v ssa.Value) bool {
+	switch x := v.(type) {
+	case *ssa.Const:
+		if x.Value != nil && x.Value.Kind() == constant.Int {
+			i, exact := constant.Int64Val(x.Value)
+			return exact && i >= 0
+		}
+	case *ssa.BinOp:
+		if ph, ok := x.X.(*ssa.Phi); ok && x.Op == token.ADD && isConstInt(x.Y, 1) && isRangePre(ph) {
+			return true
+		}
+	case *ssa.Phi:
+		if !isInduction(x) {
+			return false
+		}
+		for _, e := range x.Edges {
+			if b, ok := e.(*ssa.BinOp); ok && b.X == ssa.Value(x) {
+				c, isC := b.Y.(*ssa.Const)
+				if !isC || c.Value == nil || c.Value.Kind() != constant.Int {
+					return false
+				}
+				step, exact := constant.Int64Val(c.Value)
+				if !exact || (b.Op == token.ADD && step <= 0) || (b.Op == token.SUB && step >= 0) || (b.Op != token.ADD && b.Op != token.SUB) {
+					return false
+				}
+				continue
+			}
+			if !nonNegCounter(e) {
+				return false
+			}
+			if _, isC := e.(*ssa.Const); !isC {
+				return false
+			}
+		}
+		return true
+	}
+	return false
+}
+
+// indexOfElem returns the index value i of an element address/value x[i] (through loads and
+// field selections): the i of `cfg.Shard[i].NotAfterStart`; nil when there is none.
+func indexOfElem(v ssa.Value) ssa.Value {
+	for i := 0; i < 8 && v != nil; i++ {
+		switch x := v.(type) {
+		case *ssa.IndexAddr:
+			return x.Index
+		case *ssa.Index:
+			return x.Index
+		case *ssa.UnOp:
+			v = x.X
+		case *ssa.FieldAddr:
+			v = x.X
+		case *ssa.Field:
+			v = x.X
+		default:
+			return nil
+		}
+	}
+	return nil
+}
+
+// Trial runs f, reports whether every obligation it recorded holds, and discards them again
+// (used to choose between candidate bindings before recording the obligations for real).
+func (r *Run) Trial(f func()) bool {
+	n := len(r.Obls)
+	seen := map[string]bool{}
+	for k, v := range r.seen {
+		seen[k] = v
+	}
+	floors := map[string][2]int{}
+	for k, v := range r.Floors {
+		floors[k] = v
+	}
+	f()
+	ok := len(r.Obls) > n
+	for _, o := range r.Obls[n:] {
+		ok = ok && o.OK
+	}
+	r.Obls, r.seen, r.Floors = r.Obls[:n], seen, floors
+	return ok
+}
+
+// substParams renders a callee-side origin term in the caller's terms: every parameter pK is
+// replaced by the rendering of argument K of the call.
+func (r *Run) substParams(term string, call ssa.CallInstruction) string {
+	args := CallArgs(call)
+	var b strings.Builder
+	for i := 0; i < len(term); {
+		if term[i] == 'p' && (i == 0 || !isIdentByte(term[i-1]) && term[i-1] != '.' && term[i-1] != ':') {
+			j := i + 1
+			for j < len(term) && term[j] >= '0' && term[j] <= '9' {
+				j++
+			}
+			if j > i+1 && (j == len(term) || !isIdentByte(term[j])) {
+				k := 0
+				fmt.Sscanf(term[i+1:j], "%d", &k)
+				if k < len(args) {
+					b.WriteString(r.D.D(args[k]))
+					i = j
+					continue
+				}
+			}
+		}
+		b.WriteByte(term[i])
+		i++
+	}
+	return b.String()
+}
+
+func isIdentByte(c byte) bool {
+	return c == '_' || c >= '0' && c <= '9' || c >= 'a' && c <= 'z' || c >= 'A' && c <= 'Z'
 }
